@@ -34,6 +34,7 @@ import numpy as np  # noqa: E402
 EXTRA_MODULES = {
     "C03": ["Dreye.Props.ExtrasA", "Dreye.Props.C03Chroma"],
     "C12": ["Dreye.Props.C03Chroma"],
+    "C13": ["Dreye.Props.C13Blocks"],
     "C04": ["Dreye.Props.Cert", "Dreye.Props.ExtrasA"],
     "C05": ["Dreye.Props.ExtrasA"],
     "C06": ["Dreye.Props.Linalg", "Dreye.Props.C06Pivot", "Dreye.Props.C06Bridge", "Dreye.Props.C06Exact", "Dreye.Props.ExtrasB"],
